@@ -31,25 +31,25 @@ type wireSchema struct {
 }
 
 type wireCase struct {
-	Sid    int               `json:"sid"`
-	Si     int               `json:"si"`
-	Vi     int               `json:"vi"`
-	Opts   []string          `json:"opts"`
-	Mask   int               `json:"mask"`
-	Root   string            `json:"root"`
-	V      json.RawMessage   `json:"v"`
-	Enc    []int             `json:"enc"`
-	Lay    []string          `json:"lay,omitempty"`
-	Inputs json.RawMessage   `json:"inputs,omitempty"`
-	PredB  []string          `json:"predb,omitempty"`
-	PredS  []string          `json:"preds,omitempty"`
-	Seq    json.RawMessage   `json:"seq,omitempty"`
-	SeqEnc json.RawMessage   `json:"seqenc,omitempty"`
-	Scheds json.RawMessage   `json:"scheds,omitempty"`
-	Want   json.RawMessage   `json:"want,omitempty"`
-	AsIs   json.RawMessage   `json:"asis,omitempty"`
+	Sid    int                        `json:"sid"`
+	Si     int                        `json:"si"`
+	Vi     int                        `json:"vi"`
+	Opts   []string                   `json:"opts"`
+	Mask   int                        `json:"mask"`
+	Root   string                     `json:"root"`
+	V      json.RawMessage            `json:"v"`
+	Enc    []int                      `json:"enc"`
+	Lay    []string                   `json:"lay,omitempty"`
+	Inputs json.RawMessage            `json:"inputs,omitempty"`
+	PredB  []string                   `json:"predb,omitempty"`
+	PredS  []string                   `json:"preds,omitempty"`
+	Seq    json.RawMessage            `json:"seq,omitempty"`
+	SeqEnc json.RawMessage            `json:"seqenc,omitempty"`
+	Scheds json.RawMessage            `json:"scheds,omitempty"`
+	Want   json.RawMessage            `json:"want,omitempty"`
+	AsIs   json.RawMessage            `json:"asis,omitempty"`
 	Extra  map[string]json.RawMessage `json:"-"`
-	Pid    string            `json:"pid"`
+	Pid    string                     `json:"pid"`
 }
 
 // WireSpec parameterises the shared pipeline of the generated-code properties.
@@ -66,7 +66,7 @@ type WireSpec struct {
 	Rule      string
 	Assume    []string
 	// ForceOpts generates every package of this part under these options
-	ForceOpts []string
+	ForceOpts    []string
 	corrupt      func(lines [][]byte) [][]byte // selftest: tamper with the recorded trace
 	replaySchema *wireSchema
 	replayCase   *wireCase
@@ -585,10 +585,10 @@ func runWirePart(c *Ctx, work string, sp *WireSpec) (Coverage, int, error) {
 		nsh := 8
 		per := (len(streamLines) + nsh - 1) / nsh
 		type sres struct {
-			res  *tlc.Result
-			bad  []json.RawMessage
-			cnt  map[string]int
-			err  error
+			res *tlc.Result
+			bad []json.RawMessage
+			cnt map[string]int
+			err error
 		}
 		srs := make([]sres, nsh)
 		var swg sync.WaitGroup
@@ -733,31 +733,31 @@ func runWirePart(c *Ctx, work string, sp *WireSpec) (Coverage, int, error) {
 			"first_event": json.RawMessage(firstEventOf(eventLines, i+1))})
 	}
 	cov := Coverage{
-		"states":                        states,
-		"transitions":                   transitions,
-		"traces_validated_against_impl": total["ok"] + total["known"],
-		"events_not_applicable":         total["na"],
-		"events_total":                  nEvents,
-		"samples":                       samples,
-		"evaluations":                   nEvents,
-		"distinct_nontrivial":           nontrivial,
-		"rule":                          sp.Rule,
-		"cases":                         len(run.cases),
-		"cases_executed":                executed,
-		"schemas":                       len(run.schemas),
-		"packages_generated":            len(planList),
-		"packages_rejected":             rejected,
-		"packages_uncompilable":         uncompilable,
+		"states":                         states,
+		"transitions":                    transitions,
+		"traces_validated_against_impl":  total["ok"] + total["known"],
+		"events_not_applicable":          total["na"],
+		"events_total":                   nEvents,
+		"samples":                        samples,
+		"evaluations":                    nEvents,
+		"distinct_nontrivial":            nontrivial,
+		"rule":                           sp.Rule,
+		"cases":                          len(run.cases),
+		"cases_executed":                 executed,
+		"schemas":                        len(run.schemas),
+		"packages_generated":             len(planList),
+		"packages_rejected":              rejected,
+		"packages_uncompilable":          uncompilable,
 		"inputs_skipped_predicted_known": predictedSkipped,
-		"worker_crashes":                st.Crashes,
-		"worker_ooms":                   st.OOMs,
-		"worker_timeouts":               st.Timeouts,
-		"commands_skipped_after_crash":  st.Skipped,
-		"gen_model_states":              gr.Distinct,
-		"design_theorems_checked":       sp.GenInvs,
-		"open_deviations":               devs,
-		"exhaustive":                    false,
-		"phase_seconds":                 map[string]float64{"gen_tlc": gr.Elapsed.Seconds(), "generate_build": buildSecs, "execute": execSecs, "judge_tlc": judgeSecs},
+		"worker_crashes":                 st.Crashes,
+		"worker_ooms":                    st.OOMs,
+		"worker_timeouts":                st.Timeouts,
+		"commands_skipped_after_crash":   st.Skipped,
+		"gen_model_states":               gr.Distinct,
+		"design_theorems_checked":        sp.GenInvs,
+		"open_deviations":                devs,
+		"exhaustive":                     false,
+		"phase_seconds":                  map[string]float64{"gen_tlc": gr.Elapsed.Seconds(), "generate_build": buildSecs, "execute": execSecs, "judge_tlc": judgeSecs},
 	}
 	for k, v := range streamCov {
 		cov[k] = v
